@@ -45,7 +45,7 @@ META = {
 OPTIONS = {  # name: [base, alternatives...]
     "a": [1.0, 3.0, 0.0], "b": [1.0, 2.0, 0.0], "e": [1.0, 0.5], "p": [0.3, 0.15], "n": [3, 5],
     "d": ["absolute", "numerical", "levenshtein"], "m": [False, True], "c": [False, True], "k": [False, True],
-    "seed": [7, 0], "s": [",", ";"], "out": ["stdout", "csv", "json"], "fmt": ["csv", "rttm"], "files": [1, 2, "2r", 3],
+    "seed": [7, 0], "s": [",", ";"], "out": ["stdout", "csv", "json"], "fmt": ["csv", "rttm"], "files": [1, 2, "2r", 3, "dir", "2dirs", "dir+file"],
 }
 ROWS = {
     "f1": [("a", "1", 0, 3), ("a", "2", 5, 8), ("a", "10", 10, 12), ("b", "1", 0.5, 3), ("b", "10", 5, 8.5),
@@ -55,7 +55,8 @@ ROWS = {
     "f2": [("u", "2", 0, 2), ("u", "1", 4, 6), ("v", "2", 0.25, 2), ("v", "1", 4, 7), ("v", "2", 9, 10)],
     "f3": [("p", "30", 0, 2), ("p", "1", 4, 6), ("q", "10", 0.25, 2), ("q", "2", 4, 7), ("q", "30", 8, 9)],
 }
-FILESETS = {1: ["f1"], 2: ["f1", "f2"], "2r": ["f2", "f1"], 3: ["f3", "f1", "f2"]}
+FILESETS = {1: ["f1"], 2: ["f1", "f2"], "2r": ["f2", "f1"], 3: ["f3", "f1", "f2"],
+            "dir": [["f1", "f2"]], "2dirs": [["f1"], ["f3", "f2"]], "dir+file": [["f2"], "f1"]}  # lists = folders
 
 
 def base_point():
@@ -98,20 +99,34 @@ def configs(tier):
     return out
 
 
+def write_one(d, name, cfg):
+    if cfg["fmt"] == "csv":
+        p = os.path.join(d, name + ".csv")
+        with open(p, "w", newline="") as f:
+            csv.writer(f, delimiter=cfg["s"]).writerows(ROWS[name])
+    else:
+        p = os.path.join(d, name + ".rttm")
+        with open(p, "w") as f:
+            for ann, lab, s, e in ROWS[name]:
+                f.write(f"SPEAKER {ann} 1 {s} {e - s} <NA> <NA> {lab} <NA> <NA>\n")
+    return p
+
+
 def write_inputs(d, cfg):
-    paths = []
-    for name in FILESETS[cfg["files"]]:
-        if cfg["fmt"] == "csv":
-            p = os.path.join(d, name + ".csv")
-            with open(p, "w", newline="") as f:
-                csv.writer(f, delimiter=cfg["s"]).writerows(ROWS[name])
+    """returns (command-line arguments, list of the input files they denote)"""
+    args, files = [], []
+    for k, item in enumerate(FILESETS[cfg["files"]]):
+        if isinstance(item, list):  # a folder argument
+            sub = os.path.join(d, f"dir{k}")
+            os.makedirs(sub)
+            for name in item:
+                files.append(write_one(sub, name, cfg))
+            args.append(sub)
         else:
-            p = os.path.join(d, name + ".rttm")
-            with open(p, "w") as f:
-                for ann, lab, s, e in ROWS[name]:
-                    f.write(f"SPEAKER {ann} 1 {s} {e - s} <NA> <NA> {lab} <NA> <NA>\n")
-        paths.append(p)
-    return paths
+            p = write_one(d, item, cfg)
+            args.append(p)
+            files.append(p)
+    return args, files
 
 
 def argv_for(cfg, paths, outpath):
@@ -268,9 +283,12 @@ def judge(pa, cfg, cli_res, spy, err, api_res, paths):
 def run_config(pa, cfg):
     d = tempfile.mkdtemp(prefix="c20_", dir=os.environ.get("TMPDIR", "/tmp"))
     try:
-        paths = write_inputs(d, cfg)
+        args, paths = write_inputs(d, cfg)
         outpath = os.path.join(d, "out." + ("json" if cfg["out"] == "json" else "csv"))
-        cli_res, spy, err = run_cli(pa, cfg, paths, outpath)
+        cli_res, spy, err = run_cli(pa, cfg, args, outpath)
+        # the API is driven with the files in the order the CLI reports them (a folder is listed in OS order)
+        if cli_res is not None and sorted(cli_res) == sorted(str(p) for p in paths):
+            paths = [p for key in cli_res for p in paths if str(p) == key]
         try:
             api_res = run_api(pa, cfg, paths)
         except Exception as e:  # noqa
